@@ -56,3 +56,32 @@ func Harness_Debug_Rot() {
 	r := NewRotatedBitboard(Bitboard(occ))
 	verifAssert(uint64(r.Mask()) == occ, "normal view equals the occupancy")
 }
+
+// C06-2: the derived attack queries on arbitrary positions, against the forward attack map
+// (every piece of the attacking colour traced from its own square).
+func Harness_C06_IsAttacked() {
+	sq := splitSquare("sq")
+	verifAssume(tierSquare(uint64(sq)))
+	r := symRefPos()
+	verifAssume(refDisjoint(r))
+	c := Color(nondetU8("colour") & 1)
+	p := toPosition(r)
+	verifReach("isattacked")
+	want := refAttackMap(r, c.Opponent())&refBit(int(sq)) != 0
+	verifAssert(p.IsAttacked(c, sq) == want, "IsAttacked: the square is attacked by the opposing colour exactly when some piece of that colour reaches it by its movement rule")
+	verifAssert(p.IsDefended(c.Opponent(), sq) == want, "IsDefended is the same relation seen from the other colour")
+	verifAssert(p.IsAttacked(c, sq) == refAttacked(r, c.Opponent(), int(sq)), "the target-side formulation of the attack relation agrees")
+}
+
+func Harness_C06_IsChecked() {
+	c := Color(verifSplit(uint64(nondetU8("colour")), 0, 1))
+	ksq := splitSquare("ksq")
+	verifAssume(tierSquare(uint64(ksq)))
+	r := symRefPos()
+	r.pc[c][King] = refBit(int(ksq))
+	verifAssume(refDisjoint(r))
+	p := toPosition(r)
+	verifReach("ischecked")
+	verifAssert(p.IsChecked(c) == (refAttackMap(r, c.Opponent())&refBit(int(ksq)) != 0), "IsChecked: the king's square is attacked by the opposing colour")
+	verifAssert(p.KingSquare(c) == ksq, "KingSquare")
+}
